@@ -1012,8 +1012,8 @@ def _pe_blocks(outs):
     res = []
     try:
         while i < len(o) and o[i] == 88:
-            d = {"step": o[i + 1], "name": o[i + 2], "err": o[i + 3], "recs": {}, "calls": []}
-            i += 4
+            d = {"step": o[i + 1], "name": o[i + 2], "err": o[i + 3], "now": o[i + 4], "recs": {}, "calls": []}
+            i += 5
             np_ = o[i]; i += 1
             d["pods"] = [tuple(o[i + 5 * j:i + 5 * j + 5]) for j in range(np_)]; i += 5 * np_
             nr = o[i]; i += 1
